@@ -115,26 +115,6 @@ theorem sem_unary (op : UnaryOp) {a l : Expr}
     · simp [hx, hy]
     · simp [hx, hy]
 
-theorem sem_binary (op : BinaryOp) (hop : op.storeFree = true) {a b l X : Expr}
-    (h1 : ∀ n, Sem (pinterp m preq pes env n l) (evaluate req es env a))
-    (h2 : ∀ n, Sem (pinterp m preq pes env n X) (evaluate req es env b)) :
-    ∀ n, Sem (pinterp m preq pes env n (.binaryApp op l X)) (evaluate req es env (.binaryApp op a b)) := by
-  intro n
-  cases n with
-  | zero => simp [pinterp]
-  | succ n =>
-    simp only [pinterp, evaluate]
-    rcases h1 n with hx | hx | ⟨v, hx, hy⟩ | ⟨c, c', hx, hy⟩
-    · simp [hx]
-    · simp [hx]
-    · rw [hx, hy]
-      rcases h2 n with hx2 | hx2 | ⟨w, hx2, hy2⟩ | ⟨c, c', hx2, hy2⟩
-      · simp [hx2]
-      · simp [hx2]
-      · simp [hx2, hy2, papplyBinary_storeFree pes es op hop]
-      · simp [hx2, hy2]
-    · simp [hx, hy]
-
 theorem sem_like (p : Pattern) {a l : Expr}
     (h1 : ∀ n, Sem (pinterp m preq pes env n l) (evaluate req es env a)) :
     ∀ n, Sem (pinterp m preq pes env n (.like l p)) (evaluate req es env (.like a p)) := by
@@ -165,12 +145,88 @@ theorem sem_is (ty : EntityType) {a l : Expr}
 
 end
 
+theorem tags_ofConcrete (d : EntityData) (a : String) :
+    lookupKV (PEntityData.ofConcrete d).tags a = (lookupKV d.tags a).map PartialValue.value := by
+  simp only [PEntityData.ofConcrete, lookupKV_map_value]
+
+theorem papplyBinary_ofConcrete (es : Entities) (op : BinaryOp) (v1 v2 : Value) :
+    papplyBinary (.ofConcrete es) op v1 v2 = PRes.ofResult (applyBinary es op v1 v2) := by
+  cases hop : op.storeFree with
+  | true => exact papplyBinary_storeFree _ es op hop v1 v2
+  | false =>
+    cases op <;> simp [BinaryOp.storeFree] at hop
+    · -- mem
+      simp only [papplyBinary, applyBinary, bind, Except.bind]
+      cases h1 : v1.asEntity with
+      | error c => rfl
+      | ok u1 =>
+        simp only [entity_ofConcrete]
+        cases hf : es.find? u1 with
+        | none =>
+          cases v2 with
+          | prim p => cases p <;> simp [evalIn, PRes.ofResult, inE, hf]
+          | set vs => cases hl : asEntityList vs <;> simp [evalIn, PRes.ofResult, inE, hf, hl]
+          | record kvs => simp [evalIn, PRes.ofResult]
+          | ext x => simp [evalIn, PRes.ofResult]
+        | some d =>
+          cases v2 with
+          | prim p => cases p <;> simp [evalIn, PRes.ofResult, inE, hf, PEntityData.ofConcrete]
+          | set vs => cases hl : asEntityList vs <;> simp [evalIn, PRes.ofResult, inE, hf, hl, PEntityData.ofConcrete]
+          | record kvs => simp [evalIn, PRes.ofResult]
+          | ext x => simp [evalIn, PRes.ofResult]
+    · -- getTag
+      simp only [papplyBinary, applyBinary, bind, Except.bind]
+      cases h1 : v1.asEntity with
+      | error c => rfl
+      | ok u =>
+        cases h2 : v2.asString with
+        | error c => rfl
+        | ok t =>
+          simp only [entity_ofConcrete]
+          cases hf : es.find? u with
+          | none => rfl
+          | some d =>
+            simp only [tags_ofConcrete]
+            cases hl : lookupKV d.tags t <;> simp [PRes.ofPV, PRes.ofResult]
+    · -- hasTag
+      simp only [papplyBinary, applyBinary, bind, Except.bind]
+      cases h1 : v1.asEntity with
+      | error c => rfl
+      | ok u =>
+        cases h2 : v2.asString with
+        | error c => rfl
+        | ok t =>
+          simp only [entity_ofConcrete]
+          cases hf : es.find? u with
+          | none => rfl
+          | some d => simp [tags_ofConcrete, PRes.ofResult]
+
 section
 variable (m : Mapper) (preq : PRequest) (env : SlotEnv) (req : Request) (es : Entities)
 
 theorem attrs_ofConcrete (d : EntityData) (a : String) :
     lookupKV (PEntityData.ofConcrete d).attrs a = (lookupKV d.attrs a).map PartialValue.value := by
   simp only [PEntityData.ofConcrete, lookupKV_map_value]
+
+theorem sem_binary (op : BinaryOp) {a b l X : Expr}
+    (h1 : ∀ n, Sem (pinterp m preq (.ofConcrete es) env n l) (evaluate req es env a))
+    (h2 : ∀ n, Sem (pinterp m preq (.ofConcrete es) env n X) (evaluate req es env b)) :
+    ∀ n, Sem (pinterp m preq (.ofConcrete es) env n (.binaryApp op l X)) (evaluate req es env (.binaryApp op a b)) := by
+  intro n
+  cases n with
+  | zero => simp [pinterp]
+  | succ n =>
+    simp only [pinterp, evaluate]
+    rcases h1 n with hx | hx | ⟨v, hx, hy⟩ | ⟨c, c', hx, hy⟩
+    · simp [hx]
+    · simp [hx]
+    · rw [hx, hy]
+      rcases h2 n with hx2 | hx2 | ⟨w, hx2, hy2⟩ | ⟨c, c', hx2, hy2⟩
+      · simp [hx2]
+      · simp [hx2]
+      · simp [hx2, hy2, papplyBinary_ofConcrete]
+      · simp [hx2, hy2]
+    · simp [hx, hy]
 
 theorem sem_getAttr (attr : String) {a l : Expr}
     (h1 : ∀ n, Sem (pinterp m preq (.ofConcrete es) env n l) (evaluate req es env a)) :
@@ -225,6 +281,177 @@ theorem sem_hasAttr (attr : String) {a l : Expr}
           | none => simp [entity_ofConcrete, hf]
           | some d => simp [entity_ofConcrete, hf, attrs_ofConcrete]
     · simp [hx, hy]
+
+end
+
+
+/-! ### lists of residuals (set / call constructors) -/
+
+/-- pointwise relation of two lists of equal length -/
+inductive ListRel {α β : Type} (R : α → β → Prop) : List α → List β → Prop
+  | nil : ListRel R [] []
+  | cons {a : α} {b : β} {as : List α} {bs : List β} : R a b → ListRel R as bs → ListRel R (a :: as) (b :: bs)
+
+theorem splitPV_values (vs : List Value) : splitPV (vs.map PartialValue.value) = .inl vs := by
+  induction vs with
+  | nil => rfl
+  | cons v vs ih => simp [splitPV, ih]
+
+theorem pcallExt_ne_unknown {fn : String} (h : fn ≠ "unknown") (vs : List Value) :
+    pcallExt fn vs = PRes.ofResult (callExt fn vs) := by
+  simp [pcallExt, h]
+
+section
+variable (m : Mapper) (preq : PRequest) (env : SlotEnv) (req : Request) (es : Entities)
+
+/-- what collecting the second-pass interpretations of a list of residuals yields -/
+def CollectOK (xs : List Expr) (c : Except PRes (List PartialValue)) : Prop :=
+  match c with
+  | .error r => r = .fuel ∨ r = .panic ∨ (∃ c, r = .err c ∧ ∃ c', evaluateList req es env xs = .error c')
+  | .ok pvs => ∃ vs, pvs = vs.map PartialValue.value ∧ evaluateList req es env xs = .ok vs
+
+theorem sem_collect {rs xs : List Expr}
+    (h : ListRel (fun r x => ∀ n, Sem (pinterp m preq (.ofConcrete es) env n r) (evaluate req es env x)) rs xs)
+    (n : Nat) : CollectOK env req es xs (collectPV (pinterp m preq (.ofConcrete es) env n) rs) := by
+  induction h with
+  | nil => exact ⟨[], rfl, rfl⟩
+  | @cons r x rs xs hrx _ ih =>
+    simp only [collectPV]
+    rcases hrx n with hx | hx | ⟨v, hx, hy⟩ | ⟨c, c', hx, hy⟩
+    · rw [hx]; exact Or.inl rfl
+    · rw [hx]; exact Or.inr (Or.inl rfl)
+    · rw [hx]
+      simp only
+      cases hc : collectPV (pinterp m preq (.ofConcrete es) env n) rs with
+      | error r' =>
+        rw [hc] at ih
+        simp only [Except.map]
+        rcases ih with h | h | ⟨c, hc1, c', hc2⟩
+        · exact Or.inl h
+        · exact Or.inr (Or.inl h)
+        · exact Or.inr (Or.inr ⟨c, hc1, c', by simp [evaluateList, hy, hc2]⟩)
+      | ok pvs =>
+        rw [hc] at ih
+        obtain ⟨vs, hp, he⟩ := ih
+        simp only [Except.map]
+        exact ⟨v :: vs, by simp [hp], by simp [evaluateList, hy, he]⟩
+    · rw [hx]
+      exact Or.inr (Or.inr ⟨c, rfl, c', by simp [evaluateList, hy]⟩)
+
+theorem sem_set {rs xs : List Expr}
+    (h : ListRel (fun r x => ∀ n, Sem (pinterp m preq (.ofConcrete es) env n r) (evaluate req es env x)) rs xs) :
+    ∀ n, Sem (pinterp m preq (.ofConcrete es) env n (.set rs)) (evaluate req es env (.set xs)) := by
+  intro n
+  cases n with
+  | zero => simp [pinterp]
+  | succ n =>
+    have hc := sem_collect m preq env req es h n
+    simp only [pinterp, evaluate]
+    cases hcc : collectPV (pinterp m preq (.ofConcrete es) env n) rs with
+    | error r =>
+      rw [hcc] at hc
+      rcases hc with h | h | ⟨c, h1, c', h2⟩
+      · simp [h]
+      · simp [h]
+      · simp [h1, h2]
+    | ok pvs =>
+      rw [hcc] at hc
+      obtain ⟨vs, hp, he⟩ := hc
+      simp [hp, splitPV_values, he]
+
+theorem sem_call {fn : String} (hfn : fn ≠ "unknown") {rs xs : List Expr}
+    (h : ListRel (fun r x => ∀ n, Sem (pinterp m preq (.ofConcrete es) env n r) (evaluate req es env x)) rs xs) :
+    ∀ n, Sem (pinterp m preq (.ofConcrete es) env n (.call fn rs)) (evaluate req es env (.call fn xs)) := by
+  intro n
+  cases n with
+  | zero => simp [pinterp]
+  | succ n =>
+    have hc := sem_collect m preq env req es h n
+    simp only [pinterp, evaluate]
+    cases hcc : collectPV (pinterp m preq (.ofConcrete es) env n) rs with
+    | error r =>
+      rw [hcc] at hc
+      rcases hc with h | h | ⟨c, h1, c', h2⟩
+      · simp [h]
+      · simp [h]
+      · simp [h1, h2]
+    | ok pvs =>
+      rw [hcc] at hc
+      obtain ⟨vs, hp, he⟩ := hc
+      simp [hp, splitPV_values, he, pcallExt_ne_unknown hfn]
+
+theorem zip_fst_snd {α β : Type} (l : List (α × β)) : (l.map Prod.fst).zip (l.map Prod.snd) = l := by
+  induction l with
+  | nil => rfl
+  | cons a l ih => simp [ih]
+
+/-- what collecting the second-pass interpretations of the components of a residual record yields -/
+def CollectKVOK (kvs : List (String × Expr)) (c : Except PRes (List (String × PartialValue))) : Prop :=
+  match c with
+  | .error r => r = .fuel ∨ r = .panic ∨ (∃ c, r = .err c ∧ ∃ c', evaluateKVs req es env kvs = .error c')
+  | .ok pkvs => ∃ vs : List (String × Value),
+      pkvs = vs.map (fun kv => (kv.1, PartialValue.value kv.2)) ∧ evaluateKVs req es env kvs = .ok vs
+
+theorem sem_collectKVs {rkvs kvs : List (String × Expr)}
+    (h : ListRel (fun rk xk => rk.1 = xk.1 ∧
+      ∀ n, Sem (pinterp m preq (.ofConcrete es) env n rk.2) (evaluate req es env xk.2)) rkvs kvs)
+    (n : Nat) : CollectKVOK env req es kvs (collectPVKVs (pinterp m preq (.ofConcrete es) env n) rkvs) := by
+  induction h with
+  | nil => exact ⟨[], rfl, rfl⟩
+  | @cons rk xk rkvs kvs hrx _ ih =>
+    obtain ⟨k, r⟩ := rk
+    obtain ⟨k', x⟩ := xk
+    obtain ⟨hk, hrx⟩ := hrx
+    simp only at hk hrx
+    subst hk
+    simp only [collectPVKVs]
+    rcases hrx n with hx | hx | ⟨v, hx, hy⟩ | ⟨c, c', hx, hy⟩
+    · rw [hx]; exact Or.inl rfl
+    · rw [hx]; exact Or.inr (Or.inl rfl)
+    · rw [hx]
+      simp only
+      cases hc : collectPVKVs (pinterp m preq (.ofConcrete es) env n) rkvs with
+      | error r' =>
+        rw [hc] at ih
+        simp only [Except.map]
+        rcases ih with h | h | ⟨c, hc1, c', hc2⟩
+        · exact Or.inl h
+        · exact Or.inr (Or.inl h)
+        · exact Or.inr (Or.inr ⟨c, hc1, c', by simp [evaluateKVs, hy, hc2]⟩)
+      | ok pvs =>
+        rw [hc] at ih
+        obtain ⟨vs, hp, he⟩ := ih
+        simp only [Except.map]
+        exact ⟨(k, v) :: vs, by simp [hp], by simp [evaluateKVs, hy, he]⟩
+    · rw [hx]
+      exact Or.inr (Or.inr ⟨c, rfl, c', by simp [evaluateKVs, hy]⟩)
+
+theorem sem_record {rkvs kvs : List (String × Expr)}
+    (h : ListRel (fun rk xk => rk.1 = xk.1 ∧
+      ∀ n, Sem (pinterp m preq (.ofConcrete es) env n rk.2) (evaluate req es env xk.2)) rkvs kvs) :
+    ∀ n, Sem (pinterp m preq (.ofConcrete es) env n (.record rkvs)) (evaluate req es env (.record kvs)) := by
+  intro n
+  cases n with
+  | zero => simp [pinterp]
+  | succ n =>
+    have hc := sem_collectKVs m preq env req es h n
+    simp only [pinterp, evaluate]
+    cases hcc : collectPVKVs (pinterp m preq (.ofConcrete es) env n) rkvs with
+    | error r =>
+      rw [hcc] at hc
+      rcases hc with h | h | ⟨c, h1, c', h2⟩
+      · simp [h]
+      · simp [h]
+      · simp [h1, h2]
+    | ok pkvs =>
+      rw [hcc] at hc
+      obtain ⟨vs, hp, he⟩ := hc
+      have h1 : pkvs.map (·.2) = (vs.map Prod.snd).map PartialValue.value := by
+        rw [hp]; simp [List.map_map, Function.comp_def]
+      have h2 : pkvs.map (·.1) = vs.map Prod.fst := by
+        rw [hp]; simp [List.map_map, Function.comp_def]
+      simp only [h1, h2, splitPV_values, he, zip_fst_snd]
+      simp
 
 end
 
